@@ -88,10 +88,22 @@ class LFaults(sd.Faults):
         return 'ok'
 
 
+class LifoPolicy:
+    """Newest runnable thread first (the mirror image of FIFO): a freshly started thread -- the driver's error
+    thread, a second user thread -- runs through before the older ones continue."""
+
+    def choose(self, sched, runnable, timed):
+        if runnable:
+            return runnable[-1]
+        return vsched.TICK
+
+
 def make_policy(spec, est=300):
     kind = spec[0]
     if kind == 'fifo':
         return vsched.FifoPolicy()
+    if kind == 'lifo':
+        return LifoPolicy()
     if kind == 'script':
         return vsched.ScriptPolicy(spec[1], fallback=vsched.FifoPolicy())
     rng = random.Random(spec[1])
@@ -285,13 +297,14 @@ def execute(sc, mutant=None, want_ops=False, want_schedule=False):
                     scfs['scf'] = scf
                 scf._link_uri = uri
                 res = quiet_call('sopen', n, scf.open_link)
-                if res == 'ret':
-                    if a.get('wait_params'):
-                        quiet_call('waitp', n, scf.wait_for_params)
-                    if a.get('closer') != 'other':
+                if res == 'ret' and a.get('wait_params'):
+                    quiet_call('waitp', n, scf.wait_for_params)
+                if a.get('closer') != 'other':
+                    if res == 'ret':
                         wait_until(s, lambda: (j is not None and session_sent(n, j)) or n in st['over'],
                                    a.get('linger', 1.0))
-                        quiet_call('sclose', n, scf.close_link)
+                    # also after a raised open_link (Swarm.open_links closes every member after any failure)
+                    quiet_call('sclose', n, scf.close_link)
             else:
                 safe(lambda: cf.open_link(uri))
                 if a.get('closer') != 'other':
@@ -362,8 +375,12 @@ def execute(sc, mutant=None, want_ops=False, want_schedule=False):
         why3 = s.run(until=lambda: e_th.finished, horizon=s.now + 60.0, policy=epi_pol)
         names = [e['name'] for e in ev if e['e'] == 'cb' and e['att'] == n_epi]
         ev.append({'e': 'epi'})
+        rep3 = s.report()
         epi = {'att': n_epi, 'connected': int('connected' in names), 'fully': int('fully' in names),
-               'done': int(e_th.finished), 'run': why3}
+               'done': int(e_th.finished), 'run': why3,
+               'blocked': [{'role': role_of(x['name']), 'op': x.get('op', ''), 'fn': (x.get('site') or ['', '', 0])[1]}
+                           for x in rep3 if x['status'] == 'blocked' and not (x.get('op') == 'queue.get' and role_of(x['name']) in ('upd', 'ext', 'dev'))
+                           and role_of(x['name']) not in ('user', 'closer')]}
         schedule = list(s.trace) if want_schedule else None
         detail = {'why': [why, why2, why3],
                   'threads': [(t['name'], t['status'], t.get('op'), t.get('site')) for t in rep if t['status'] != 'finished'],
@@ -1116,8 +1133,18 @@ def systematic(tier, rng):
     """Every fault position of the real handshake x reporter x API, every close position, connect failures;
     each under FIFO and seeded random / PCT schedules."""
     nseeds = 1 if tier == 'quick' else 6
-    pols = [('fifo', 0)] + [(k, rng.randrange(1 << 30)) for _ in range(nseeds) for k in ('random', 'pct')]
+    pols = [('fifo', 0), ('lifo', 0)] + [(k, rng.randrange(1 << 30)) for _ in range(nseeds) for k in ('random', 'pct')]
     out = []
+    # histories on ONE SyncCrazyflie object: opened and closed once, then an open that loses the link; a failed open
+    # followed by one that works; every open is followed by a close_link whether it returned or raised
+    for pol in pols[:2] + pols[2:4]:
+        ok = {'api': 'sync', 'close': 13}
+        for first in (ok, {'api': 'sync', 'connfail': 1}, {'api': 'sync', 'connfail': 2}, {'api': 'sync', 'fault': [3, 'driver']},
+                      {'api': 'sync', 'fault': [1, 'sender']}):
+            seconds = [ok, dict(ok, wait_params=True)] + [{'api': 'sync', 'fault': [k, by]} for k in (2, 5, 8) for by in ('driver', 'sender')]
+            for second in seconds:
+                out.append({'mode': 'sync', 'policy': pol, 'attempts': [dict(first), dict(second)]})
+        out.append({'mode': 'sync', 'policy': pol, 'attempts': [dict(ok), {'api': 'sync', 'close': 4, 'closer': 'other'}, dict(ok)]})
     for pol in pols:
         for api in ('plain', 'sync'):
             for by in ('driver', 'sender'):
@@ -1319,6 +1346,8 @@ def signature(t, clause, at):
     """violated clause + canonical witness class (thread role / call site / word shape), stable across seeds"""
     race = lifecycle_race(t, clause, at)
     if race is not None:
+        if clause in ('AfterDisconnected', 'ConnectedBeforeTables', 'FullyBeforeValues') and 0 < at <= len(t['ev']):
+            return '%s/%s/lifecycle-race/%s' % (clause, t['ev'][at - 1].get('name', ''), race)
         return '%s/lifecycle-race/%s' % (clause, race)
     ev = t['ev']
     q = t['q']
@@ -1352,9 +1381,12 @@ def signature(t, clause, at):
         cause = 'link-error' if 'lost' in w or any(e['e'] == 'lerr' and e['att'] == att for e in ev) else 'close'
         phase = 'before-connected' if 'connected' not in w else 'after-connected'
         return 'SyncCallHangs/%s/%s/%s' % (kind, cause, phase)
-    if clause == 'ReconnectFails':
+    if clause in ('ReconnectFails', 'ReconnectIncomplete'):
         names = [e['name'] for e in ev if e['e'] == 'cb' and e['att'] == t['epi']['att']]
         why = 'sendlock-held-by-%s' % role_of_t(q['owner']) if q['sendlock'] else ('dispatcher-dead' if not q['disp_alive'] else 'word-' + '-'.join(names))
+        if clause == 'ReconnectIncomplete':
+            bl = sorted('%s:%s@%s' % (x['role'], x['op'], x['fn']) for x in t['epi'].get('blocked', []))
+            return 'ReconnectIncomplete/no-fully_connected/%s' % ('+'.join(bl) or 'nothing-blocked')
         return 'ReconnectFails/%s' % why
     if clause == 'NotDisconnected':
         return 'NotDisconnected/state=%d/link-%s' % (q['state'], 'none' if q['linknone'] else 'set')
@@ -1455,6 +1487,10 @@ def main(tier, seed, replay=None):
         return out.finish()
 
     from concurrent.futures import ThreadPoolExecutor
+    # self-tests (mutants, reverts, corrupted traces) that do not come out as expected on the tree under test must not
+    # mask the verdict: the real traces are judged and reported first; only a run without any new violation ends with
+    # a machinery failure because of them
+    selftest = []
     ncpu = common.NCPU
     big = ThreadPoolExecutor(2)                      # exhaustive checks of the repaired design: 2 at a time
     small = ThreadPoolExecutor(max(2, ncpu // 2))    # bug cfgs and single-worker as-is searches
@@ -1535,7 +1571,8 @@ def main(tier, seed, replay=None):
         for name, f in f_rev.items():
             r = f.result()
             if r is None or not (r.violated and r.error_trace):
-                raise common.MachineryError('the as-is spec with the switches of %s back on was not refuted' % name)
+                selftest.append('the as-is spec with the switches of %s back on was not refuted' % name)
+                continue
             out.states += r.distinct
             out.transitions += r.generated
             out.tlc_runs.append(dict(r.summary(), config='MC_Lifecycle_asis.cfg + %s' % name))
@@ -1614,9 +1651,17 @@ def main(tier, seed, replay=None):
     mt_all = run_jobs([(sc, name) for name in names for sc in sub])
     rev_names = sorted(rev_scs)
     rv_all = []
-    for name in rev_names:
-        rv_all.append(execute(rev_scs[name], mutant=MUTANTS[name], want_ops=True))   # the repair reverted in memory
-        rv_all.append(execute(rev_scs[name], want_ops=True))                          # same schedule, tree as it is
+    for name in list(rev_names):
+        try:
+            tm_ = execute(rev_scs[name], mutant=MUTANTS[name], want_ops=True)        # the repair reverted in memory
+            tu_ = execute(rev_scs[name], want_ops=True)                               # same schedule, tree as it is
+        except vcore.Kill:
+            raise
+        except Exception as ex:
+            selftest.append('in-memory revert %s could not be executed on this tree: %r' % (name, ex))
+            rev_names.remove(name)
+            continue
+        rv_all += [tm_, tu_]
     o2 = common.Outcome('C02', tier, seed)
     mv = judge(o2, mt_all + rv_all, 'mutants and reverts', defects, count=False)
     for k, name in enumerate(names):
@@ -1624,7 +1669,7 @@ def main(tier, seed, replay=None):
         bad = [mv[t['id']][0] for t in mt if mv[t['id']][0] != 'ok']
         out.sensitivity['mutant:' + name] = '%d of %d traces rejected (%s)' % (len(bad), len(mt), ','.join(sorted(set(bad))))
         if not bad:
-            raise common.MachineryError('monitor did not reject in-memory mutant %s' % name)
+            selftest.append('monitor did not reject in-memory mutant %s' % name)
     # each repair of /repo reverted in memory, driven along the TLC schedule of the corresponding as-is switch: the
     # monitor must reject the reverted code and accept the same schedule on the tree as it is
     for k, name in enumerate(rev_names):
@@ -1634,29 +1679,36 @@ def main(tier, seed, replay=None):
             signature(tm, cm_, mv[tm['id']][1]) if cm_ != 'ok' else 'ok', tm['replay']['matched'], tm['replay']['len'],
             'ok' if cu_ == 'ok' else signature(tu, cu_, mv[tu['id']][1]))
         if cm_ == 'ok':
-            raise common.MachineryError('monitor did not reject the in-memory revert %s' % name)
+            selftest.append('monitor did not reject the in-memory revert %s' % name)
     import copy
     base = next((t for t in all_traces if verdicts[t['id']][0] == 'ok' and verdicts[t['id']][2] and t['cm'] and
                  any(e['e'] == 'cb' and e['name'] == 'lost' for e in t['ev']) and
                  any(e['e'] == 'op' and e['k'] == 'acq' for e in t['ev'])), None)
     if base is None:
-        raise common.MachineryError('no conforming passing trace with a link failure found for the binding self-test')
-    t1 = copy.deepcopy(base)
-    idx = next(i for i, e in enumerate(t1['ev']) if e['e'] == 'cb' and e['name'] == 'disconnected')
-    del t1['ev'][idx]
-    t2 = copy.deepcopy(base)
-    ops = [i for i, e in enumerate(t2['ev']) if e['e'] == 'op' and e['k'] == 'acq']
-    del t2['ev'][ops[len(ops) // 2]]
-    t3 = copy.deepcopy(base)
-    t3['q']['threads'].append({'role': 'disp', 'name': 'disp0', 'status': 'blocked', 'op': 'lock.acquire', 'file': '__init__.py', 'fn': 'send_packet'})
-    o2 = common.Outcome('C02', tier, seed)
-    cv = judge(o2, [t1, t2, t3], 'corrupted', defects, count=False)
-    res = {'drop-disconnected-callback': cv[1][0] != 'ok', 'drop-one-lock-acquire-op': not cv[2][2],
-           'blocked-dispatcher-in-quiescence-report': cv[3][0] != 'ok'}
-    for k, okk in res.items():
-        out.sensitivity['binding:' + k] = 'rejected' if okk else 'ACCEPTED'
-    if not all(res.values()):
-        raise common.MachineryError('trace spec accepted a corrupted trace: %s' % res)
+        selftest.append('no conforming passing trace with a link failure found for the binding self-test')
+    else:
+        t1 = copy.deepcopy(base)
+        idx = next(i for i, e in enumerate(t1['ev']) if e['e'] == 'cb' and e['name'] == 'disconnected')
+        del t1['ev'][idx]
+        t2 = copy.deepcopy(base)
+        ops = [i for i, e in enumerate(t2['ev']) if e['e'] == 'op' and e['k'] == 'acq']
+        del t2['ev'][ops[len(ops) // 2]]
+        t3 = copy.deepcopy(base)
+        t3['q']['threads'].append({'role': 'disp', 'name': 'disp0', 'status': 'blocked', 'op': 'lock.acquire', 'file': '__init__.py', 'fn': 'send_packet'})
+        o2 = common.Outcome('C02', tier, seed)
+        cv = judge(o2, [t1, t2, t3], 'corrupted', defects, count=False)
+        res = {'drop-disconnected-callback': cv[1][0] != 'ok', 'drop-one-lock-acquire-op': not cv[2][2],
+               'blocked-dispatcher-in-quiescence-report': cv[3][0] != 'ok'}
+        for k, okk in res.items():
+            out.sensitivity['binding:' + k] = 'rejected' if okk else 'ACCEPTED'
+        if not all(res.values()):
+            selftest.append('trace spec accepted a corrupted trace: %s' % res)
+    if selftest:
+        out.sensitivity['self-test failures'] = selftest
+        known = common.known_findings('C02')
+        if not any(v['sig'] not in known for v in out.violations):
+            out.finish()
+            raise common.MachineryError('; '.join(selftest))
     return out.finish()
 
 
